@@ -30,8 +30,9 @@ Section WP.
       Q (inr ECancelled) d (mon_event x m TIrqPending) /\
       wp (h EBusy) Q d (mon_event x m (TIvFault IvIrq)) /\
       wp (k []) Q d (mon_event x m (TIv IvIrq))
-    | Do (Iv c) k h =>
-      wp (h EBusy) Q d (mon_event x m (TIvFault c)) /\ wp (k []) Q d (mon_event x m (TIv c))
+    | Do (Iv IvBusy) k h =>
+      wp (h EBusy) Q d (mon_event x m (TIvFault IvBusy)) /\ wp (k []) Q d (mon_event x m (TIv IvBusy))
+    | Do (Iv c) k _ => wp (k []) Q d (mon_event x m (TIv c))     (* reset / RF switch: no fault position *)
     | Do (DelayNs ns) k _ => wp (k []) Q d (mon_event x m (TDelay ns))
     | Do (St tag v) k _ => wp (k []) Q (set_nth_list d tag v) m
     | Do (Ld tag) k _ => wp (k (nth tag d [])) Q d m
@@ -44,7 +45,7 @@ Section WP.
     induction p as [a|e|a k IHk h IHh]; intros Q Q' d m HQ H; cbn [wp] in *; try (apply HQ; exact H).
     destruct a as [segs|c|ns|tag v|tag].
     - destruct H as [H1 H2]. split; [eapply IHh; eauto|]. intros ts got Hm. eapply IHk; eauto.
-    - destruct c; try (destruct H as [H1 H2]; split; [eapply IHh; eauto|eapply IHk; eauto]).
+    - destruct c; try (eapply IHk; eauto; fail); try (destruct H as [H1 H2]; split; [eapply IHh; eauto|eapply IHk; eauto]; fail).
       destruct H as [H0 [H1 H2]]. split; [apply HQ; exact H0|]. split; [eapply IHh; eauto|eapply IHk; eauto].
     - eapply IHk; eauto.
     - eapply IHk; eauto.
@@ -57,7 +58,7 @@ Section WP.
     induction p as [a|e|a k IHk h IHh]; intros Q d m H; cbn [wp bind] in *; try exact H.
     destruct a as [segs|c|ns|tag v|tag].
     - destruct H as [H1 H2]. split; [apply IHh; exact H1|]. intros ts got Hm. apply IHk. apply H2. exact Hm.
-    - destruct c; try (destruct H as [H1 H2]; split; [apply IHh; exact H1|apply IHk; exact H2]).
+    - destruct c; try (apply IHk; exact H); try (destruct H as [H1 H2]; split; [apply IHh; exact H1|apply IHk; exact H2]; fail).
       destruct H as [H0 [H1 H2]]. split; [exact H0|]. split; [apply IHh; exact H1|apply IHk; exact H2].
     - apply IHk; exact H.
     - apply IHk; exact H.
@@ -87,7 +88,8 @@ Section WP.
     - destruct e; cbn [wp]; try exact H. exfalso; apply NC; reflexivity.
     - destruct NC as [NCk NCh]. destruct a as [segs|c|ns|tag v|tag]; cbn [wp].
       + destruct H as [H1 H2]. split; [apply IHh; [apply NCh; discriminate|exact H1]|]. intros ts got Hm. apply IHk; [apply NCk|]. apply H2. exact Hm.
-      + destruct c; try (destruct H as [H1 H2]; split; [apply IHh; [apply NCh; discriminate|exact H1]|apply IHk; [apply NCk|exact H2]]).
+      + destruct c; try (apply IHk; [apply NCk|exact H]);
+          try (destruct H as [H1 H2]; split; [apply IHh; [apply NCh; discriminate|exact H1]|apply IHk; [apply NCk|exact H2]]; fail).
         destruct H as [H0 [H1 H2]]. split; [exact H0|]. split; [apply IHh; [apply NCh; discriminate|exact H1]|apply IHk; [apply NCk|exact H2]].
       + apply IHk; [apply NCk|exact H].
       + apply IHk; [apply NCk|exact H].
@@ -155,7 +157,7 @@ Section WP.
                   match (let '(flt, c1) := tick c0 in if flt then run f c1 (h EBusy) (TIvFault call :: tr) else run f c1 (k []) (TIv call :: tr)) with
                   | (c', tr', Some r) => Q r (c_drv c') (fold_left (mon_event x) tr' m0) | (_, _, None) => True end).
       { intros c0 Hd Hf Hk. unfold tick. destruct (match c_fault c0 with Some k0 => _ | None => false end); apply IH; cbn [c_drv]; rewrite Hd; assumption. }
-      destruct call; try (destruct H as [Hf Hk]; apply G; [reflexivity|exact Hf|exact Hk]).
+      destruct call; try (apply IH; exact H); try (destruct H as [Hf Hk]; apply G; [reflexivity|exact Hf|exact Hk]; fail).
       destruct H as [Hc [Hf Hk]].
       destruct (_ || _).
       + cbv beta iota. rewrite mon_rev_fold. exact Hc.
